@@ -129,7 +129,7 @@ def run(ctx):
         want = [w for w, _ in exp.seq]
         if got != want:
             ctx.violation('use before / after (re)definition: expected words %r, got %r' % (want, got), src=c['src'], opts=c['opts'],
-                          D='', X=c['src'])
+                          D='', X=c['src'], case=semrun.pack(c))
 
 def judge_witness(w):
     c = {'D': w['D'], 'X': w['X'], 'opts': w.get('opts') or {}, 'ast': {'t': 'seq', 'items': []}}
@@ -137,6 +137,21 @@ def judge_witness(w):
 
 def replay(data):
     v = data['violation']
+    if v.get('case'):
+        c = semrun.unpack(v['case'])
+        r = t2t.run_case({k: x for k, x in c.items() if k != 'ast'})
+        f = []
+        if r['outcome'] == 'ok':
+            try:
+                exp = sem.evaluate(c['ast'])
+                got = [w for w, _ in semrun.out_words(r['txt']) if w not in exp.hidden]
+                want = [w for w, _ in exp.seq]
+                if got != want:
+                    f = ['use before / after (re)definition: expected words %r, got %r' % (want, got)]
+            except sem.Unsupported:
+                pass
+        print('\n'.join(f) if f else 'ok')
+        return not f
     f = judge_witness(v)
     print('\n'.join(f) if f else 'ok (route equivalence; the substitution oracle needs the AST)')
     return not f
